@@ -289,6 +289,25 @@ class Builder:
         self.out(target, lines)
         return "shadow_" + kind
 
+    def s_promoted_param(self, target):
+        """un-annotated parameter that the body itself re-binds to a float: one variant serves int, bool and float callers."""
+        h, a = self.name("h"), self.name("a")
+        form = self.draw(st.sampled_from(["mul", "add", "add_write"]))
+        body = {"mul": [f"    {a} = {a} * 0.5", f"    return {a}"], "add": [f"    {a} = {a} + 0.25", f"    return {a} * 2"],
+                "add_write": [f"    {a} = {a} + 0.25", f"    mon.write({a})", f"    return {a}"]}[form]
+        self.pre += [f"def {h}({a}):"] + body
+        iv, fv = self.name("n"), self.name("n")
+        lines = [f"{iv} = {self.val('int')}", f"{fv} = {self.val('float')}"]
+        kinds = self.draw(st.lists(st.sampled_from(["ilit", "ivar", "fvar", "flit", "blit", "iexpr", "fexpr"]), min_size=2, max_size=4))
+        for kd in kinds:
+            arg = {"ilit": self.val("int"), "ivar": iv, "fvar": fv, "flit": self.val("float"), "blit": self.val("bool"), "iexpr": f"({iv} + 1)", "fexpr": f"({fv} * 2.0)"}[kd]
+            x = self.name()
+            pos = self.draw(st.sampled_from(["assign", "write", "stmt", "expr"]))
+            lines += {"assign": [f"{x} = {h}({arg})", f"mon.write({x})"], "write": [f"mon.write({h}({arg}))"], "stmt": [f"{h}({arg})"],
+                      "expr": [f"{x} = {h}({arg}) + 1", f"mon.write({x})"]}[pos]
+        self.out(target, lines)
+        return "promoted_param"
+
     def s_retype(self, target):
         x = self.name()
         form = self.draw(st.sampled_from(["assign", "aug", "swap"]))
@@ -332,7 +351,7 @@ class Builder:
 
 
 SAFE = ["if_else_join", "ifexp_join", "float_first", "branch_hoist", "elif_hoist", "for_hoist", "while_hoist", "return_join", "annotated_param",
-        "list_join", "string_promotion", "tuple", "cross_pass", "mixed_arith", "device_getter", "nested_hoist", "same_local_two_helpers", "shadow"]
+        "list_join", "string_promotion", "tuple", "cross_pass", "mixed_arith", "device_getter", "nested_hoist", "same_local_two_helpers", "shadow", "promoted_param"]
 OPEN = ["retype", "multi_signature", "unannotated_param", "branch_in_loop", "float_minmaxabs", "main_loop_first_assign"]
 
 
